@@ -46,9 +46,15 @@ func c16(c *Ctx) {
 	os.Setenv("MAGEFILE_VERBOSE", "0")
 	atoms := []string{"$VT_A", "${VT_B}", "lit", "x$VT_A", "$VT_A$VT_B", "a b", "$VT_UNSET", "$$", "z"}
 	vals := []string{"one", "two", "", "t h r e e", "$VT_B", "é"}
+	// a second copy of the child program: the command word of a closure may be "$VT_CMDW", pointing at one or the other
+	child2 := filepath.Join(tmp, "shchild-two")
+	if cb, err := os.ReadFile(child); err == nil {
+		os.WriteFile(child2, cb, 0o755)
+	}
+	os.Setenv("VT_CMDW", child)
 	envNow := func() [][2]string {
 		var l [][2]string
-		for _, k := range []string{"VT_A", "VT_B"} {
+		for _, k := range []string{"VT_A", "VT_B", "VT_CMDW"} {
 			if v, ok := os.LookupEnv(k); ok {
 				l = append(l, [2]string{k, v})
 			}
@@ -99,15 +105,24 @@ func c16(c *Ctx) {
 			useOut := r.Bool()
 			baked := mk(r.Intn(4), []int{0, 0, 1, 2, 5}[r.Intn(5)])
 			bakedSnap := snapshot(baked)
-			run := sh.RunCmd(child, baked...)
-			outc := sh.OutCmd(child, baked...)
+			cmdWord := child
+			viaVar := !useOut && r.Chance(1, 2) // the program itself named through a variable that changes between calls
+			if viaVar {
+				cmdWord = "$VT_CMDW"
+			}
+			run := sh.RunCmd(cmdWord, baked...)
+			outc := sh.OutCmd(cmdWord, baked...)
 			ncalls := 1 + r.Intn(6)
 			var calls []J
 			var got []interface{}
+			var commands []string
 			unchanged := true
 			for k := 0; k < ncalls; k++ {
 				if k == 0 || r.Chance(2, 3) {
 					randEnv()
+				}
+				if viaVar {
+					os.Setenv("VT_CMDW", []string{child, child2}[r.Intn(2)])
 				}
 				extra := mk(r.Intn(4), r.Intn(3))
 				if r.Chance(1, 3) {
@@ -137,6 +152,9 @@ func c16(c *Ctx) {
 						var repj struct{ Argv []string }
 						rb, _ := os.ReadFile(rep)
 						json.Unmarshal(rb, &repj)
+						if viaVar && len(repj.Argv) > 0 {
+							commands = append(commands, string(mustUnhex(repj.Argv[0])))
+						}
 						var av []string
 						for _, h := range repj.Argv[1:] {
 							av = append(av, string(mustUnhex(h)))
@@ -162,8 +180,15 @@ func c16(c *Ctx) {
 			if cap(baked) > len(baked) {
 				sp = "spare"
 			}
-			c.Emit(J{"op": "c16.history", "baked": append([]string{}, baked...), "spare": cap(baked) - len(baked), "calls": calls},
-				J{"argvs": got, "callerUnchanged": unchanged}, tag, sp)
+			os.Setenv("VT_CMDW", child)
+			in := J{"op": "c16.history", "baked": append([]string{}, baked...), "spare": cap(baked) - len(baked), "calls": calls}
+			impl := J{"argvs": got, "callerUnchanged": unchanged}
+			if viaVar {
+				in["cmdWord"] = cmdWord
+				impl["commands"] = commands
+				tag += "-cmdvar"
+			}
+			c.Emit(in, impl, tag, sp)
 		case kind < 8: // direct calls with the caller's slice and env map
 			randEnv()
 			xs := mk(1+r.Intn(3), r.Intn(2))
